@@ -1331,11 +1331,15 @@ class SubElementTextListProperty(_ElementListProperty):
 
     def __init__(self, sub_element_name: etree.QName | None, value_class: Any, is_optional: bool = True):
         super().__init__(sub_element_name, ListConverter(ClassCheckConverter(value_class)), is_optional=is_optional)
+        self._value_class = value_class
 
     def get_py_value_from_node(self, instance: Any, node: xml_utils.LxmlElement) -> Any:  # noqa: ARG002
         """Read value from node."""
         nodes = node.findall(self._sub_element_name)
-        return [_node.text for _node in nodes]
+        if self._value_class is str:
+            return [_node.text for _node in nodes]
+        # convert the text to the declared class (e.g. int, an enum), so that the value is what was written
+        return [self._value_class(_node.text) for _node in nodes]
 
     def update_xml_value(self, instance: Any, node: xml_utils.LxmlElement):
         """Write value to node."""
